@@ -1,8 +1,196 @@
 import Req.Driver.Proto
-/-! Driver lanes of C12. -/
-namespace Req.Driver.L.C12
-open Req.Proto
+import Req.Pool.Dispatch
+import Req.Pool.Tls
+/-! Driver lanes of C12.
 
-def lanes : List (String × (List String → String)) := []
+* `c12route <force> <h3> <allowHTTP> <dialTLS> <handshake> <protos> <scheme> <reqH1> <alpn>
+  <tcpAccept> <h3Up> <quicAccept> <plainH2> <custom> <cachedH2> <cachedH3> <alt>`
+  → `ok:h1|ok:h2|ok:h3|err:tls|err:other|crash` (`Dispatch.route`).
+* `c12routeu …` same arguments → `Dispatch.routeUnpatched` (the un-patched order; used to tag
+  the known Alt-Svc findings precisely).
+* `c12set <goSupportsH3> <setters>` → the protocol settings after a setter sequence
+  (`Dispatch.applySetting` folded from `T()`).
+* `c12cfg <stack> <onlyH1> <host> <issuer> <names> <ops>` → `sni=<n> alpn=<protos> accept=<0|1>
+  cert=<id|->`: the configuration stack `<stack>` builds for a new connection after the
+  setter sequence `<ops>` (starting from `T()`'s initial config), judged by `acceptsStd`
+  against a server certificate issued by CA `<issuer>` for names `<names>`.
+
+Encodings: booleans `0/1`; force `-|1|2|3`; ALPN lists are strings over `2` (h2), `1`
+(http/1.1), `3` (h3), `x` (other), `-` = empty; custom `fail|plain|tls:<proto|->:<mutual>`;
+id lists are digit strings (`-` = empty).
+-/
+namespace Req.Driver.L.C12
+open Req.Proto Req.Pool.Dispatch Req.Pool.TLS
+
+def pBool : String → Option Bool
+  | "0" => some false
+  | "1" => some true
+  | _ => none
+
+def pAlpn1 : Char → Option Alpn
+  | '2' => some .h2
+  | '1' => some .http11
+  | '3' => some .h3
+  | 'x' => some .other
+  | _ => none
+
+def pAlpns (s : String) : Option (List Alpn) :=
+  if s == "-" then some [] else s.toList.mapM pAlpn1
+
+def sAlpn : Alpn → Char
+  | .h2 => '2'
+  | .http11 => '1'
+  | .h3 => '3'
+  | .other => 'x'
+
+def sAlpns (l : List Alpn) : String := if l.isEmpty then "-" else String.ofList (l.map sAlpn)
+
+def pDigits (s : String) : Option (List Nat) :=
+  if s == "-" then some [] else s.toList.mapM fun c => if c.isDigit then some (c.toNat - 48) else none
+
+def pForce : String → Option (Option Ver)
+  | "-" => some none
+  | "1" => some (some .h1)
+  | "2" => some (some .h2)
+  | "3" => some (some .h3)
+  | _ => none
+
+def pScheme : String → Option Scheme
+  | "http" => some .http
+  | "https" => some .https
+  | "other" => some .other
+  | _ => none
+
+def pCustom (s : String) : Option Custom :=
+  match s.splitOn ":" with
+  | ["fail"] => some .fail
+  | ["plain"] => some .plain
+  | ["tls", p, m] => do
+    let m ← pBool m
+    let pr ← (if p == "-" then some none else
+      match p.toList with
+      | [c] => (pAlpn1 c).map some
+      | _ => none)
+    pure (.tls ⟨pr, m⟩)
+  | _ => none
+
+def sRoute : Route → String
+  | .ok .h1 => "ok:h1"
+  | .ok .h2 => "ok:h2"
+  | .ok .h3 => "ok:h3"
+  | .error .tlsReject => "err:tls"
+  | .error _ => "err:other"
+  | .crash => "crash"
+
+def parseRoute (args : List String) : Option (Cfg × Req × Net) :=
+  match args with
+  | [force, h3, allow, dial, hs, protos, scheme, reqH1, alpn, tcpA, h3Up, quicA, plainH2, custom, cH2, cH3, alt] => do
+    let cfg : Cfg := ⟨← pForce force, ← pBool h3, ← pBool allow, ← pBool dial, ← pBool hs, ← pAlpns protos⟩
+    let req : Req := ⟨← pScheme scheme, ← pBool reqH1⟩
+    let net : Net := ⟨← pAlpns alpn, ← pBool tcpA, ← pBool h3Up, ← pBool quicA, ← pBool plainH2, ← pCustom custom,
+      ← pBool cH2, ← pBool cH3, ← pBool alt⟩
+    pure (cfg, req, net)
+  | _ => none
+
+def laneRoute (args : List String) : String :=
+  match parseRoute args with
+  | some (cfg, req, net) => sRoute (route cfg req net)
+  | none => "bad-op"
+
+def laneRouteU (args : List String) : String :=
+  match parseRoute args with
+  | some (cfg, req, net) => sRoute (routeUnpatched cfg req net)
+  | none => "bad-op"
+
+def pStack : String → Option Stack
+  | "h1" => some .h1
+  | "h2" => some .h2
+  | "h3" => some .h3
+  | _ => none
+
+def pRoots (s : String) : Option (Option (List Nat)) :=
+  match s.toList with
+  | ['n'] => some none
+  | 'r' :: ds => (ds.mapM fun (c : Char) => if c.isDigit then some (c.toNat - 48) else none).map some
+  | _ => none
+
+def pTagged (tag : Char) (s : String) : Option String :=
+  match s.toList with
+  | c :: rest => if c == tag then some (String.ofList rest) else none
+  | [] => none
+
+def pOp (s : String) : Option Op :=
+  match s.splitOn ":" with
+  | ["nil"] => some (.setConfig none)
+  | ["clone"] => some .clone
+  | ["use"] => some .use
+  | ["ins1"] => some (.insecure true)
+  | ["ins0"] => some (.insecure false)
+  | ["roots", r] => (pRoots r).map .setRoots
+  | ["cfg", sn, ins, roots, certs, protos] => do
+    let sn ← sn.toNat?
+    let ins ← pBool ins
+    let roots ← pRoots roots
+    let certs ← (pTagged 'c' certs) >>= fun d => pDigits (if d.isEmpty then "-" else d)
+    let protos ← (pTagged 'p' protos) >>= fun d => pAlpns (if d.isEmpty then "-" else d)
+    pure (.setConfig (some { serverName := sn, insecure := ins, roots := roots, certs := certs, protos := protos }))
+  | [one] =>
+    if one.startsWith "root" then (one.drop 4).toString.toNat?.map .addRoot
+    else if one.startsWith "cert" then (one.drop 4).toString.toNat?.map .addCert
+    else if one.startsWith "sn" then (one.drop 2).toString.toNat?.map .setServerName
+    else none
+  | _ => none
+
+def pOps (s : String) : Option (List Op) :=
+  if s == "-" then some [] else (s.splitOn ",").mapM pOp
+
+def laneCfg : List String → String
+  | [stack, onlyH1, host, issuer, names, ops] =>
+    match pStack stack, pBool onlyH1, host.toNat?, issuer.toNat?, pDigits names, pOps ops with
+    | some s, some o, some h, some iss, some ns, some os =>
+      let eff := effective s o h (run (some initialCfg) os)
+      let acc := acceptsStd eff.toVerifyCfg ⟨iss, ns⟩
+      let cert := if acc then (match eff.certs with | c :: _ => toString c | [] => "-") else "-"
+      s!"sni={eff.serverName} alpn={sAlpns eff.protos} accept={if acc then 1 else 0} cert={cert}"
+    | _, _, _, _, _, _ => "bad-op"
+  | _ => "bad-op"
+
+def pSetting : String → Option Setting
+  | "f1" => some .forceH1
+  | "f2" => some .forceH2
+  | "f3" => some .forceH3
+  | "uf" => some .unforce
+  | "e3" => some .enableH3
+  | "d3" => some .disableH3
+  | "eh" => some .enableH2C
+  | "dh" => some .disableH2C
+  | "cl" => some .clone
+  | _ => none
+
+/-- `c12set <supported> <settings>` → `force=… h3=… allow=… dial=…` after the setters, from `T()`
+(`allow=?` once a clone occurred: whether Clone carries `t2.AllowHTTP` is C19's subject). -/
+def laneSetWith (ap : Bool → Cfg → Setting → Cfg) : List String → String
+  | [sup, ss] =>
+    match pBool sup, (if ss == "-" then some [] else (ss.splitOn ",").mapM pSetting) with
+    | some sup, some l =>
+      let c := l.foldl (ap sup) initialProto
+      let f := match c.force with | none => "-" | some .h1 => "1" | some .h2 => "2" | some .h3 => "3"
+      let b := fun (x : Bool) => if x then "1" else "0"
+      let allow := if l.contains .clone then "?" else b c.allowHTTP
+      s!"force={f} h3={b c.h3} allow={allow} dial={b c.dialTLS}"
+    | _, _ => "bad-op"
+  | _ => "bad-op"
+
+def laneSet := laneSetWith applySetting
+/-- the un-patched `DisableHTTP3` (used only to recognise the known finding exactly) -/
+def laneSetU := laneSetWith applySettingUnpatched
+
+def lanes : List (String × (List String → String)) := [
+  ("c12set", laneSet),
+  ("c12setu", laneSetU),
+  ("c12route", laneRoute),
+  ("c12routeu", laneRouteU),
+  ("c12cfg", laneCfg)
+]
 
 end Req.Driver.L.C12
